@@ -3,13 +3,14 @@ from .. import common as C
 from .. import lbgen, lbshadow
 
 ID = "C02"
-MODULES = ["Helios.Props.CodeLB", "Helios.Props.CodeStrat", "Helios.Props.C02", "Helios.Props.Facts"]
+MODULES = ["Helios.Props.CodeLB", "Helios.Props.CodeStrat", "Helios.Props.CodeAddr", "Helios.Props.C02", "Helios.Props.Facts"]
 THEOREMS = ["Helios.LB.dispatch_sound", "Helios.LB.dispatch_complete", "Helios.LB.no_503_while_healthy",
             "Helios.Facts.retry_budget_eq", "Helios.Facts.strategies_eq", "Helios.Facts.extraction_clean",
             "Helios.CodeTie.eligible_refines", "Helios.CodeTie.translation_clean_lb",
             # Tie C: NextBackend of the least-connections and round-robin strategies, translated from the source on every run
             "Helios.CodeTie.lcNext_refines", "Helios.CodeTie.rrNext_refines", "Helios.CodeTie.residues_covered",
-            "Helios.CodeTie.translation_clean_strat"]
+            "Helios.CodeTie.translation_clean_strat",
+            "Helios.CodeTie.ipNext_eligible", "Helios.CodeTie.ipNext_refines", "Helios.CodeTie.ipcNext_refines", "Helios.CodeTie.translation_clean_addr"]
 CLOCK_PKGS = ["internal/loadbalancer", "internal/ratelimiter", "internal/circuitbreaker", "internal/metrics"]
 
 
